@@ -28,6 +28,27 @@ def main(ctx, args):
         f = ctx.path("gen", "idx_%d.ndjson" % i)
         open(f, "w").write("".join(json.dumps(x) + "\n" for x in extra[i:i + per]))
         jobs.append(dict(MODE="list", IDXFILE=f, LMAX=2 if ctx.quick else 3))
+    # bracket expressions: negation, ] as first member, ranges, classes, - and ^ as members, alone and in context
+    M = ["a", "b", "a-b", "A", "[:alpha:]", "-", "^", "\u00e9", "[:digit:]"]
+    brk = []
+    for neg in ("", "^"):
+        for first in ("", "]"):
+            for m1 in M:
+                for m2 in [""] + M:
+                    if neg == "" and first == "" and m1 == "^":
+                        continue
+                    if m1.endswith("-b") and m2.startswith("-") or (m1 == "-" and m2 and first + neg == ""):
+                        continue
+                    b = "[" + neg + first + m1 + m2 + "]"
+                    brk.append(b)
+                    if not ctx.quick:
+                        brk += [b + "+", "a" + b, "(" + b + ")*b", b + "{2}"]
+    brk = sorted(set(brk))
+    per = max(1, (len(brk) + NCPU - 1) // NCPU)
+    for i in range(0, len(brk), per):
+        f = ctx.path("gen", "brk_%d.ndjson" % i)
+        open(f, "w").write("".join(json.dumps([ord(c) for c in x]) + "\n" for x in brk[i:i + per]))
+        jobs.append(dict(MODE="cplines", IDXFILE=f, LMAX=2 if ctx.quick else 3))
     tables = gen_tables(ctx, jobs)
     exe = ctx.probe("reprobe")
     stats = dict(patterns=0, clean=0, cases=0, matched=0, cut=0, exact=0, eloop=0, thm=0)
@@ -91,7 +112,7 @@ def main(ctx, args):
                                 "flags_ic_nb_ne": fl, "expected=got": got})
     cov = {"evaluations": stats["cases"], "distinct_nontrivial": stats["matched"],
            "rule": "patterns = every sequence of <= N tokens from Gen_Regex!Tokens (N=2 quick / 3 thorough) plus a "
-                   "seeded sample of longer ones, kept when the reference grammar consumes them wholly; each against "
+                   "seeded sample of longer ones and a family of bracket expressions (negation, ] first, ranges, classes, - and ^ as members), kept when the reference grammar consumes them wholly; each against "
                    "every line of <= L characters over {a,b,A,e-acute,space} + newline and all 8 flag combinations; "
                    "non-trivial = the reference finds a match (span and 3 groups compared)",
            "samples": samples, "exhaustive": True, "stats": stats,
